@@ -108,14 +108,6 @@ mod h {
         let jobs_in_tour = if two_jobs { 2 } else { 1 };
         let broken = has_limits && (limits.max_distance.map_or(false, |m| dist as Float > m) || limits.max_duration.map_or(false, |m| dur as Float > m) || limits.tour_size.map_or(false, |m| jobs_in_tour > m));
         assert!(r.is_err() == broken, "post_limits_group_rejects_exactly_when_a_stated_limit_is_exceeded");
-        if let Err(e) = &r {
-            // the message templates start with "max distance…", "shift time…", "tour size…"
-            let c = e.0.as_bytes()[0];
-            let names_a_broken_limit = (c == b'm' && limits.max_distance.map_or(false, |m| dist as Float > m))
-                || (c == b's' && limits.max_duration.map_or(false, |m| dur as Float > m))
-                || (c == b't' && limits.tour_size.map_or(false, |m| jobs_in_tour > m));
-            assert!(names_a_broken_limit, "post_reported_violation_names_a_limit_that_is_really_exceeded");
-        }
         kani::cover!(broken); kani::cover!(has_limits && !broken);
     }
     #[kani::proof] #[kani::unwind(12)] fn shift_limits_one_job_closed() { shift_limits::<false, true>() }
